@@ -178,6 +178,13 @@ class Unit:
                     self.verus_args.append(s[len('//@verus-arg '):].strip())
                 elif s.startswith('//@vis '):
                     self.vis = s.split()[1]
+                elif s.startswith('//@import '):
+                    if raw:
+                        self.segments.append(('raw', raw))
+                        raw = []
+                    self.segments.append(('import', s.split()[1]))
+                elif s in ('//@export-begin', '//@export-end'):
+                    raw.append(Line(s, 'raw', flags=(s[3:],)))
                 elif s.startswith('//@item ') or s.startswith('//@slice '):
                     if raw:
                         self.segments.append(('raw', raw))
@@ -265,6 +272,9 @@ class Unit:
                 for l in seg:
                     t.update(l.tags)
         return t
+
+    def imports(self):
+        return [seg for kind, seg in self.segments if kind == 'import']
 
     # ---------------------------------------------------------------- extract
     def _extract(self, it, cache):
@@ -472,6 +482,9 @@ class Unit:
                         continue
                     out.append(l)
                 continue
+            if kind == 'import':
+                out.extend(self._import(seg, kf_on))
+                continue
             it = self.items[seg]
             try:
                 text, first_line, bo = self._extract(it, cache)
@@ -502,6 +515,38 @@ class Unit:
                         res.append(l)
                 woven = res
             out.extend(woven)
+        return out
+
+    def _import(self, name, kf_on):
+        """Lines of another unit's exported region with every verified fn body made external_body:
+        the contracts are textually the ones proved in that unit; bodies are not re-verified here."""
+        other = Unit(os.path.join(os.path.dirname(self.path), name + '.rs'))
+        lines = other.build(kf_on=kf_on)
+        inside = False
+        out = []
+        marked = set()
+        for l in lines:
+            if 'export-begin' in l.flags:
+                inside = True
+                continue
+            if 'export-end' in l.flags:
+                inside = False
+                continue
+            if not inside:
+                continue
+            nl = Line(l.text, 'raw' if l.kind != 'ins' else 'ins', l.tags, l.kf, l.label, None, l.src, ())
+            if l.item is not None:
+                it = other.items[l.item]
+                is_fn = it.kind == 'item' and rustscan.parse_path(it.path_text)[-1][0] == 'fn'
+                if is_fn and not it.trusted and l.item not in marked:
+                    marked.add(l.item)
+                    out.append(Line('#[verifier::external_body] // imported from unit %s: contract proved there' % name, 'raw'))
+            out.append(nl)
+        if not out:
+            raise UnitError('%s: import %s has no //@export-begin … //@export-end region' % (self.name, name))
+        self.imported_trusted = getattr(self, 'imported_trusted', []) + [
+            '%s::%s (contract proved in unit %s)' % (name, it.name, name) for it in other.items
+            if it.kind == 'item' and rustscan.parse_path(it.path_text)[-1][0] == 'fn']
         return out
 
     def unweave_ok(self, lines):
